@@ -12,7 +12,8 @@ RULE = ("(a) exhaustive over every cell and subinterval for N=2..5, N*m <= 14 (q
         "subinterval whose image is that cell, inverse(image(x)) must be floor(x*n)/n for three probes per subinterval; (b) random cells for densities up "
         "to N*m = 50 with y = centre, interior points, points on faces / edges, the corners lower and upper; (c) arbitrary boxes (float, integer-typed, "
         "tiny, negative), arguments as arrays, lists, tuples and integer-typed values; GetPreimages must agree with GetInverseImage; (d) N=1: both maps "
-        "affine within 4 ulp. The cell containing y is computed directly from y (never through the evolvent). Non-trivial: every case; distinct = (kind, N, m, range/index).")
+        "affine within 4 ulp. The cell containing y is computed directly from y (never through the evolvent). Non-trivial: every case; distinct = (kind, N, m, range/index)."
+       " A third of the random-cell cases use Solver-built evolvents; a further kind replaces the problem's bounds after the Solver was built, lets it iterate and checks inverse(image(x)) = x rounded down.")
 ASSUMPTIONS = ["a point within rounding distance of a cell face may be attributed to either neighbouring cell",
                "on arbitrary boxes the rounding of the box->cube transform is bounded by 16 eps max(|lower|,|upper|)/side per axis"]
 CHUNK = 1
